@@ -25,6 +25,7 @@ type c32Block struct {
 	partial    bool      // no meta.json in the bucket
 	markedAt   int64     // unix seconds of a pre-existing deletion mark (0 = none)
 	touchedAt  time.Time // last modification of the partial upload's files
+	firstTouch time.Time // modification time of its oldest object (a slow or resumed upload)
 	newestSamp int64     // ms
 }
 
@@ -72,6 +73,11 @@ func runC32(x *simkit.Exec) {
 		case 2: // partial upload, last touched around the abort threshold
 			b.partial = true
 			b.touchedAt = start.Add(-compact.PartialUploadThresholdAge - offsets[x.Draw("touchOffset", len(offsets))])
+			b.firstTouch = b.touchedAt
+			if x.Bool("mixedAges", 1, 2) {
+				// the upload started long before its last object was written
+				b.firstTouch = b.touchedAt.Add(-[]time.Duration{time.Minute, 10 * time.Hour, 72 * time.Hour}[x.Draw("uploadDuration", 3)])
+			}
 			if x.Bool("youngULID", 1, 2) {
 				b.spec.ID = fixtures.ULID(uint64(b.touchedAt.UnixMilli()), x.Seed*32+uint64(i))
 			}
@@ -104,7 +110,11 @@ func runC32(x *simkit.Exec) {
 				_ = bkt.Inner.Delete(ctx, id+"/meta.json")
 				for n := range bkt.Inner.Objects() {
 					if strings.HasPrefix(n, id+"/") {
-						_ = bkt.Inner.ChangeLastModified(n, b.touchedAt)
+						at := b.touchedAt
+						if strings.Contains(n, "/chunks/") {
+							at = b.firstTouch // chunks are uploaded first, the index last
+						}
+						_ = bkt.Inner.ChangeLastModified(n, at)
 					}
 				}
 			}
